@@ -452,6 +452,24 @@ var ghostLevelOf func(ll *LevelList, t *Table) int
 //@     invariant forall(0, idx_, func(i int) bool { return setOK(ll.levels[i].tables) && ll.levels[i].Num == old(ll.levels)[i].Num &&
 //@           forall(func(x *Table) bool { return has(ll.levels[i].tables.m, x) == (has(old(ll.levels)[i].tables.m, x) && !inList(tables, x)) }) })
 
+// Tables are ordered oldest first by the sequence number they start with (major compaction takes
+// the OLDEST tables of a level first: moving a newer table beneath an older one would put newer
+// data under older data).
+//@ func OrderOldToNew
+//@   property C18 C07
+//@   nosafety
+//@   modifies nothing
+//@   ensures (a.startSeqNum < b.startSeqNum ==> result < 0) && (a.startSeqNum > b.startSeqNum ==> result > 0) && (a.startSeqNum == b.startSeqNum ==> result == 0)
+
+// The file number of a new table is reserved atomically BEFORE the file is created (flush and
+// compaction share the writer: a number read first and incremented after the save is handed out twice).
+//@ func TableWriter.Write
+//@   property C18 C17
+//@   nosafety
+//@   order New after Add
+//@   atcall Load: false
+//@   ensures called(Add)
+
 // A layout built from the tables of a checkpoint knows the HIGHEST sequence number any of its
 // tables ends with (the restored database continues numbering above it - C08, C03).
 //@ func NewLevelListOfTables
